@@ -1,12 +1,13 @@
 #!/bin/bash
-# setup_cmd: offline build of the framework + cache warm-up
+# setup_cmd: offline build of the framework + build-cache warm-up (plain, instrumented and -race variants)
 set -e
 export GOFLAGS=-mod=mod GOPROXY=off GOSUMDB=off GOTOOLCHAIN=local
 cd /verif/mc
 mkdir -p /verif/bin /verif/evidence /verif/build
-go build ./... 
-for d in checks/c*/; do
-  id=$(basename "$d")
-  if [ -f "$d/main.go" ]; then go build -o /verif/bin/$id ./$d; fi
+go build ./...
+for id in $(jq -r '.checks[].property_id' /verif/MANIFEST.json); do
+  /verif/vcheck build "$id" || { echo "setup: build of $id failed"; exit 1; }
 done
+# warm the race-detector build used by the C15 complement pass
+go test -race -count=1 -vet=off -run '^$' ./checks/c15race >/dev/null 2>&1 || true
 echo setup done
